@@ -99,6 +99,10 @@ func DecodePEMPrivateKey(key []byte) (crypto.Signer, error) {
 		if err != nil {
 			return nil, err
 		}
+		if _, ok := key.(crypto.Signer); !ok {
+			// For example, X25519 keys (*ecdh.PrivateKey) cannot be used for signing
+			return nil, fmt.Errorf("unsupported private key type %T", key)
+		}
 		return key.(crypto.Signer), nil
 	default:
 		return nil, fmt.Errorf("unsupported block type %s", block.Type)
